@@ -25,7 +25,9 @@ def lay1(ctx, c):
     repo = ctx.repo
     fn = repo.method("Program", "translate_statements")
     where = repo.loc(fn, fn.node)
-    body = body_without_doc(fn.node)
+    from ..inline import flatten
+    flat = flatten(repo, fn, depth=2, only={m_ for m_ in repo.cls("Program").methods if m_ not in ("process_mnemonics", "save_symbol", "all_sizes_fixed", "parse")})
+    body = body_without_doc(flat)
     pos = {}
     for i, st in enumerate(body):
         t = U(st)
@@ -34,14 +36,22 @@ def lay1(ctx, c):
                 pos[name] = (i, st)
     missing = [n for n, _ in PHASES if n not in pos]
     if missing:
-        c.finding("translate_statements:phases", "phase(s) not found: %s" % ", ".join(missing),
-                  "Program.translate_statements has no statement performing: %s" % ", ".join(missing), where)
+        whole = U(flat)
+        really = [n for n, pred in PHASES if n in missing and not pred(whole)]
+        if really:
+            c.finding("translate_statements:phases", "phase(s) missing: %s" % ", ".join(really),
+                      "Program.translate_statements (with its helpers) contains no code performing: %s" % ", ".join(really), where)
+        else:
+            c.undecided("translate_statements:phases", "phase(s) not located at statement level: %s" % ", ".join(missing), "", where)
     order = [n for n, _ in sorted(((n, pos[n][0]) for n in pos), key=lambda kv: kv[1])]
     want = [n for n, _ in PHASES if n in pos]
     # phases sharing one top-level statement have equal index: that merges passes
     idxs = [pos[n][0] for n in want]
     strictly = all(a < b for a, b in zip(idxs, idxs[1:]))
-    c.check(order == want and strictly, "translate_statements:order", " -> ".join(want),
+    if missing:
+        pass
+    else:
+      c.check(order == want and strictly, "translate_statements:order", " -> ".join(want),
             "order: %s" % " -> ".join("%s@%d" % (n, pos[n][0]) for n in order),
             "Program.translate_statements runs its passes as %s; each pass needs the previous one complete over ALL statements "
             "(e.g. every symbol collected before any is resolved, every size fixed before addresses are assigned)"
@@ -54,8 +64,12 @@ def lay1(ctx, c):
         st = pos[name][1]
         it = U(st.iter) if isinstance(st, ast.For) else ""
         good = isinstance(st, ast.For) and re.fullmatch(r"enumerate\(self\.statements\)|self\.statements", it) is not None
-        c.check(good, "translate_statements:%s" % name, "for every statement, in order", "iterates %s" % (it or type(st).__name__),
-                "the %s pass iterates %s instead of all of self.statements in order" % (name, it or type(st).__name__), repo.loc(fn, st))
+        if good:
+            c.ok("translate_statements:%s" % name, "for every statement, in order", repo.loc(fn, st))
+        elif isinstance(st, ast.For) and re.search(r"reversed|\[1:\]|\[:-1\]|\[::|sorted", it):
+            c.finding("translate_statements:%s" % name, "iterates %s" % it, "the %s pass iterates %s instead of all of self.statements in order" % (name, it), repo.loc(fn, st))
+        else:
+            c.undecided("translate_statements:%s" % name, "iteration-shape-not-recognised", it or type(st).__name__, repo.loc(fn, st))
     # LAY-2 address pass
     if "address assignment" in pos:
         st = pos["address assignment"][1]
@@ -82,15 +96,27 @@ def lay1(ctx, c):
                     steps.append(("other", U(s)))
             good = len(steps) == 2 and steps[0] == ("set", addr_var) and steps[1][0] == "add" and steps[1][1] == addr_var and \
                 re.fullmatch(r"\w+\.code_pkg\.size", steps[1][2]) is not None
-            c.check(good, "translate_statements:address-pass", "address = set_address(address); address += code_pkg.size", "steps %s" % steps,
-                    "the address pass must give each statement the running address and advance by exactly code_pkg.size; it does %s" % steps, repo.loc(fn, st))
+            adds = [x for x in steps if x[0] == "add"]
+            if good:
+                c.ok("translate_statements:address-pass", "address = set_address(address); address += code_pkg.size", repo.loc(fn, st))
+            elif len(adds) == 1 and adds[0][1] == addr_var and re.fullmatch(r"\w+\.code_pkg\.\w+|\d+", adds[0][2]) and not re.fullmatch(r"\w+\.code_pkg\.size", adds[0][2]):
+                c.finding("translate_statements:address-pass", "address advances by %s" % adds[0][2],
+                          "the address pass advances the running address by %s; a statement occupies exactly code_pkg.size bytes" % adds[0][2], repo.loc(fn, st))
+            elif any(x[0] == "set" for x in steps) and any(x[0] == "add" for x in steps) and [x[0] for x in steps if x[0] in ("set", "add")] != ["set", "add"]:
+                c.finding("translate_statements:address-pass", "steps in order %s" % [x[0] for x in steps], "the address pass advances the address before assigning it", repo.loc(fn, st))
+            else:
+                c.undecided("translate_statements:address-pass", "shape-not-recognised", str(steps)[:120], repo.loc(fn, st))
             j = i - 1
             while j > 0 and isinstance(body[j], ast.Expr):
                 j -= 1
             init = body[j] if j >= 0 else None
-            init_ok = isinstance(init, ast.Assign) and U(init.targets[0]) == addr_var and try_fold(init.value) == 0
-            c.check(init_ok, "translate_statements:address-init", "starts at 0", "initialisation %s" % (U(init) if init is not None else None),
-                    "the running address must start at 0 immediately before the pass", repo.loc(fn, st))
+            init_ok = isinstance(init, ast.Assign) and U(init.targets[0]) == addr_var and try_fold(init.value, ctx.env) == 0
+            if init_ok:
+                c.ok("translate_statements:address-init", "starts at 0", repo.loc(fn, st))
+            elif isinstance(init, ast.Assign) and U(init.targets[0]) == addr_var and isinstance(try_fold(init.value, ctx.env), int):
+                c.finding("translate_statements:address-init", "starts at %s" % try_fold(init.value, ctx.env), "the running address starts at %s instead of 0" % try_fold(init.value, ctx.env), repo.loc(fn, st))
+            else:
+                c.undecided("translate_statements:address-init", "initialisation-not-recognised", U(init)[:60] if init is not None else "", repo.loc(fn, st))
     sa = repo.method("Statement", "set_address")
     guards_sa = [n for n in ast.walk(sa.node) if isinstance(n, ast.If)]
     for gnode in guards_sa:
@@ -201,7 +227,14 @@ def lay3(ctx, c):
     rets = gg.find(lambda k, n: k == "return")
     tests = gg.find(lambda k, n: k == "test" and "not in" in U(n))
     ok = bool(tests) and all(r not in gg.reachable(avoid_edges=[(t, False) for t in tests]) for r in rets) and all(gg.only_raises_after(t, True) for t in tests)
-    c.check(ok, "Value.get_symbol", "missing symbol -> raise", "lookup without a missing-key raise", "Value.get_symbol returns without rejecting an undefined symbol", repo.loc(gs, gs.node))
+    has_raise = any(isinstance(x, ast.Raise) for x in ast.walk(gs.node))
+    uses_get = any(isinstance(x, ast.Call) and isinstance(x.func, ast.Attribute) and x.func.attr == "get" for x in ast.walk(gs.node))
+    if ok:
+        c.ok("Value.get_symbol", "missing symbol -> raise", repo.loc(gs, gs.node))
+    elif not has_raise:
+        c.finding("Value.get_symbol", "lookup without a missing-key raise", "Value.get_symbol returns without rejecting an undefined symbol (no raise%s)" % (", .get() default" if uses_get else ""), repo.loc(gs, gs.node))
+    else:
+        c.undecided("Value.get_symbol", "shape-not-recognised", "", repo.loc(gs, gs.node))
 
 
 OPS = {"+": ast.Add, "-": ast.Sub, "*": ast.Mult, "/": (ast.Div, ast.FloorDiv)}
@@ -224,7 +257,18 @@ def exp1(ctx, c):
             bo = [x for x in ast.walk(n.body[0]) if isinstance(x, ast.BinOp) and isinstance(x.left, ast.Name) and isinstance(x.right, ast.Name)]
             if op in OPS and bo:
                 arms[op] = (type(bo[0].op), binds.get(bo[0].left.id, bo[0].left.id), binds.get(bo[0].right.id, bo[0].right.id), n)
-    for op, want in OPS.items():
+    if not arms:
+        # a table of operator -> lambda
+        for d in [n for n in ast.walk(fn.module.tree) if isinstance(n, ast.Dict) and n.keys and all(isinstance(k, ast.Constant) and k.value in OPS for k in n.keys)]:
+            for k, v in zip(d.keys, d.values):
+                if isinstance(v, ast.Lambda) and len(v.args.args) == 2:
+                    bo = [x for x in ast.walk(v.body) if isinstance(x, ast.BinOp) and isinstance(x.left, ast.Name) and isinstance(x.right, ast.Name)]
+                    if bo:
+                        pn = [a_.arg for a_ in v.args.args]
+                        arms[k.value] = (type(bo[0].op), "left" if bo[0].left.id == pn[0] else "right", "right" if bo[0].right.id == pn[1] else "left", ast.If(test=k, body=[ast.Expr(value=v.body)], orelse=[], lineno=d.lineno))
+    if not arms:
+        c.undecided("ExpressionValue.resolve", "operator-dispatch-not-recognised", "", where)
+    for op, want in (OPS.items() if arms else []):
         if op not in arms:
             c.finding("ExpressionValue.resolve:%s" % op, "operator has no arm", "ExpressionValue.resolve has no arm for operator %s" % op, where)
             continue
@@ -405,10 +449,24 @@ def dir1(ctx, c):
     for cls, w in (("MultiByteValue", 2), ("MultiWordValue", 4)):
         f = repo.method(cls, "__init__", inherited=False)
         sizes = [try_fold(k.value) for n in ast.walk(f.node) if isinstance(n, ast.Call) and U(n.func).endswith(".hex") for k in n.keywords if k.arg == "size"]
-        c.check(sizes == [w], "%s:element-width" % cls, "%d hex digits per element" % w, "element width %s" % sizes,
-                "%s renders its elements with %s hex digits, the directive needs %d" % (cls, sizes, w), repo.loc(f, f.node))
+        if not sizes:
+            # the width may be passed to a shared base class / helper: super().__init__(value, unit) or self.parse_list(value, 2)
+            for n in ast.walk(f.node):
+                if isinstance(n, ast.Call) and ("super()" in U(n.func) or U(n.func).startswith("self.")):
+                    ints = [try_fold(a_, ctx.env) for a_ in n.args] + [try_fold(k.value, ctx.env) for k in n.keywords]
+                    ints = [x for x in ints if isinstance(x, int) and not isinstance(x, bool)]
+                    if len(ints) == 1:
+                        sizes = ints
+        if not sizes:
+            c.undecided("%s:element-width" % cls, "width-not-recognised", "", repo.loc(f, f.node))
+        else:
+            c.check(sizes == [w], "%s:element-width" % cls, "%d hex digits per element" % w, "element width %s" % sizes,
+                    "%s renders its elements with %s hex digits, the directive needs %d" % (cls, sizes, w), repo.loc(f, f.node))
         seps = [try_fold(n.args[0]) for n in ast.walk(f.node) if isinstance(n, ast.Call) and U(n.func).endswith(".split") and n.args]
-        c.check(seps == [","], "%s:separator" % cls, "split on ','", "split on %s" % seps, "%s splits its operand on %s" % (cls, seps), repo.loc(f, f.node))
+        if not seps:
+            c.undecided("%s:separator" % cls, "split-not-recognised", "", repo.loc(f, f.node))
+        else:
+            c.check(seps == [","], "%s:separator" % cls, "split on ','", "split on %s" % seps, "%s splits its operand on %s" % (cls, seps), repo.loc(f, f.node))
     sv = repo.method("StringValue", "__init__", inherited=False)
     t = U(sv.node)
     good = "value[-1] != value[0]" in t and "value[1:-1]" in t and "ord(x)" in t
@@ -419,8 +477,10 @@ def dir1(ctx, c):
     # DIR-3 FCC reassembly in parse_line
     pl = repo.method("Statement", "parse_line")
     wp = repo.loc(pl, pl.node)
+    from ..inline import flatten as _fl2
+    pl_flat = _fl2(repo, pl, depth=2)
     fcc = None
-    for n in ast.walk(pl.node):
+    for n in ast.walk(pl_flat):
         if isinstance(n, ast.If) and "is_string_define" in U(n.test):
             fcc = n
     if fcc is None:
@@ -429,7 +489,10 @@ def dir1(ctx, c):
         t = U(fcc)
         find_calls = [n for n in ast.walk(fcc) if isinstance(n, ast.Call) and isinstance(n.func, ast.Attribute) and n.func.attr in ("find", "rfind", "index", "rindex")]
         good = len(find_calls) == 1 and find_calls[0].func.attr in ("find", "index") and len(find_calls[0].args) == 2 and try_fold(find_calls[0].args[1]) == 1
-        c.check(good, "parse_line:FCC:closing", "closing delimiter = first occurrence after the opening one", "closing delimiter located by %s" % [U(x) for x in find_calls],
+        if not find_calls:
+            c.undecided("parse_line:FCC:closing", "delimiter-search-not-recognised", "", repo.loc(pl, fcc))
+        else:
+          c.check(good, "parse_line:FCC:closing", "closing delimiter = first occurrence after the opening one", "closing delimiter located by %s" % [U(x) for x in find_calls],
                 "the FCC branch finds the closing delimiter with %s; it is the first occurrence of the opening character after position 0 "
                 "(searching from the right turns comment text containing the delimiter into data)" % [U(x) for x in find_calls], repo.loc(pl, fcc))
         if "'{} {}'.format(data.group('operands'), data.group('comment').strip())" in t:
@@ -471,11 +534,15 @@ def inc1(ctx, c):
             ext.append((U(n.func.value), n.func.attr, U(n.args[0]) if n.args else "", n))
             result = U(n.func.value)
     ok_else = any(a in ("extend", "append") and arg in ("[%s]" % U(loop.target), U(loop.target)) for _, a, arg, _ in ext)
-    c.check(ok_else, "process_mnemonics:keep", "a non-INCLUDE statement is kept as is", "calls %s" % [(a, arg) for _, a, arg, _ in ext],
-            "process_mnemonics does not append each ordinary statement itself to the result", where)
+    c.shape(ok_else, "process_mnemonics:keep", "a non-INCLUDE statement is kept as is", "append of the statement itself not recognised", where)
     inc_ext = [x for x in ext if x[2] not in ("[%s]" % U(loop.target), U(loop.target))]
-    c.check(len(inc_ext) == 1 and inc_ext[0][1] == "extend", "process_mnemonics:splice", "included statements are spliced at the INCLUDE's position", "calls %s" % [(a, arg) for _, a, arg, _ in inc_ext],
-            "process_mnemonics does not extend the result with the included statements in place of the INCLUDE statement", where)
+    plus = [n for n in ast.walk(loop) if isinstance(n, ast.AugAssign) and isinstance(n.op, ast.Add)]
+    if len(inc_ext) == 1 and inc_ext[0][1] == "extend" or (not inc_ext and plus):
+        c.ok("process_mnemonics:splice", "included statements are spliced at the INCLUDE's position", where)
+    elif inc_ext and inc_ext[0][1] == "insert":
+        c.finding("process_mnemonics:splice", "included statements inserted with %s" % U(inc_ext[0][3])[:50], "process_mnemonics does not splice the included statements at the INCLUDE's position", where)
+    else:
+        c.undecided("process_mnemonics:splice", "shape-not-recognised", str([(a, arg) for _, a, arg, _ in inc_ext]), where)
     # the expansion is a fresh recursive parse of the file named by the operand
     t = U(loop)
     src_calls = [n for n in ast.walk(loop) if isinstance(n, ast.Call) and U(n.func) == "SourceFile"]
@@ -485,16 +552,34 @@ def inc1(ctx, c):
             name_var = U(n.targets[0])
     if src_calls and name_var:
         arg = U(src_calls[0].args[0]) if src_calls[0].args else ""
-        c.check(arg == name_var and not src_calls[0].keywords, "process_mnemonics:path", "opens the operand as written (relative to the working directory)", "opens %s" % U(src_calls[0]),
+        if arg != name_var and src_calls[0].args and isinstance(src_calls[0].args[0], ast.Name):
+            for a_ in ast.walk(loop):
+                if isinstance(a_, ast.Assign) and U(a_.targets[0]) == arg:
+                    arg = U(a_.value)
+        if arg != name_var and not re.search(r"os\.path|join|dirname|abspath|basename|expanduser|lstrip|replace", arg):
+            c.undecided("process_mnemonics:path", "argument-not-recognised", arg, repo.loc(fn, src_calls[0]))
+        else:
+          c.check(arg == name_var and not src_calls[0].keywords, "process_mnemonics:path", "opens the operand as written (relative to the working directory)", "opens %s" % U(src_calls[0]),
                 "process_mnemonics opens %s; the INCLUDE operand is a path relative to the working directory and the file is an assembly source" % U(src_calls[0]), repo.loc(fn, src_calls[0]))
     else:
         c.undecided("process_mnemonics:path", "SourceFile-call-not-found", "", where)
     rec = [n for n in ast.walk(loop) if isinstance(n, ast.Call) and U(n.func).endswith("process_mnemonics")]
-    good = bool(rec) and all(re.fullmatch(r"(cls|self|Program)\.parse\(\w+\.get_buffer\(\)\)", U(r.args[0])) is not None for r in rec if r.args)
-    c.check(good, "process_mnemonics:recursion", "expansion = process_mnemonics(parse(lines of the file))", "recursion %s" % [U(r) for r in rec],
-            "the included file must be parsed and expanded by the same parse + process_mnemonics as the main file, freshly at each INCLUDE; found %s" % [U(r) for r in rec], where)
-    reads = [n for n in ast.walk(loop) if isinstance(n, ast.Call) and U(n.func).endswith(".read_file")]
-    c.check(bool(reads), "process_mnemonics:read", "file read at the point of inclusion", "no read_file call", "the included file is not read", where)
+    if not rec:
+        c.finding("process_mnemonics:recursion", "no recursive expansion", "process_mnemonics does not expand INCLUDEs inside an included file", where)
+    else:
+        parsed = all(r.args and re.fullmatch(r"(cls|self|Program)\.parse\(.+\)", U(r.args[0])) is not None for r in rec)
+        cached = any(isinstance(r.args[0], ast.Subscript) or (isinstance(r.args[0], ast.Attribute)) for r in rec if r.args)
+        if parsed:
+            c.ok("process_mnemonics:recursion", "expansion = process_mnemonics(parse(lines of the file))", where)
+        elif cached:
+            c.finding("process_mnemonics:recursion", "expansion of stored statements: %s" % U(rec[0].args[0])[:50],
+                      "the included file must be parsed freshly at each INCLUDE (Statement objects carry addresses and sizes); process_mnemonics expands %s" % U(rec[0].args[0])[:80], where)
+        else:
+            c.undecided("process_mnemonics:recursion", "shape-not-recognised", U(rec[0])[:80], where)
+    from ..inline import flatten as _fl
+    whole = U(_fl(repo, fn, depth=2, only={m_ for m_ in repo.cls("Program").methods if m_ not in ("process_mnemonics", "parse")}))
+    reads = "read_file(" in whole or "read_assembly_contents(" in whole or "readlines(" in whole or "open(" in whole
+    c.shape(reads, "process_mnemonics:read", "file read at the point of inclusion", "no read of the included file recognised", where)
     # get_include_filename returns the operand text
     gi = repo.method("Statement", "get_include_filename")
     good = re.search(r"return self\.operand\.operand_string if self\.instruction\.is_include else None", U(gi.node)) is not None
@@ -520,11 +605,16 @@ def txt1(ctx, c):
     repo = ctx.repo
     pl = repo.method("Statement", "parse_line")
     wp = repo.loc(pl, pl.node)
-    t = U(pl.node)
-    c.check(re.search(r"self\.mnemonic = data\.group\('mnemonic'\)\.upper\(\)", t) is not None, "parse_line:mnemonic-case", "mnemonic upper-cased before lookup", "mnemonic not upper-cased",
-            "parse_line looks the mnemonic up without folding it to upper case", wp)
-    c.check(re.search(r"next\(\(op for op in INSTRUCTIONS if op\.mnemonic == self\.mnemonic\), None\)", t) is not None, "parse_line:lookup", "first table row with that mnemonic", "lookup shape changed",
-            "parse_line does not select the instruction by equality with the upper-cased mnemonic", wp)
+    from ..inline import flatten as _fl3
+    t = U(_fl3(repo, pl, depth=2))
+    if re.search(r"group\('mnemonic'\)\.upper\(\)", t) or re.search(r"mnemonic\w*\.upper\(\)", t):
+        c.ok("parse_line:mnemonic-case", "mnemonic upper-cased before lookup", wp)
+    elif re.search(r"self\.mnemonic = \w+\.group\('mnemonic'\)( or '')?\n", t) and ".upper()" not in t:
+        c.finding("parse_line:mnemonic-case", "mnemonic not upper-cased", "parse_line looks the mnemonic up without folding it to upper case", wp)
+    else:
+        c.undecided("parse_line:mnemonic-case", "shape-not-recognised", "", wp)
+    c.shape(re.search(r"for (\w+) in INSTRUCTIONS if \1\.mnemonic == ", t) is not None or re.search(r"for (\w+) in INSTRUCTIONS:\s+if \1\.mnemonic == ", t) is not None,
+            "parse_line:lookup", "first table row with that mnemonic", "instruction lookup not recognised", wp)
     mod = repo.cls("Statement").module
     node = mod.assigns.get("ASM_LINE_REGEX")
     pat = try_fold(node.args[0]) if isinstance(node, ast.Call) and node.args else None
